@@ -243,7 +243,10 @@ def addressInit (addr : Bytes) : AddrRes :=
         if (cstr host).isEmpty then .invalid
         else match pton4 (cstr host) with
           | some [a, b, c, d] => .ok (.v4 a b c d) port
-          | _ => .unspec
+          | _ =>
+            -- not a canonical dotted quad: the text goes to the resolver.  A text with a blank, a control character or a byte above
+            -- 0x7e in it is no host name and no literal: the resolver refuses it (also when it BEGINS with a dotted quad)
+            if (cstr host).all (fun c => decide (33 ≤ c ∧ c ≤ 126)) then .unspec else .invalid
 
 def hostText : IPAddr → Bytes
   | .v4 a b c d => ntop4 a b c d
